@@ -10,8 +10,9 @@ package vals
 // Reference semantics (website/ref/language.md, "List" and "String"):
 //   single index i is valid iff -n <= i < n and denotes element (i<0 ? i+n : i);
 //   a slice a..b denotes [adj(a), adj(b)) with defaults 0 and n, valid iff
-//   -n <= a,b <= n and adj(a) <= adj(b); a..=b is a..(b+1) except that ..=-1
-//   means "to the end".
+//   -n <= a,b <= n and adj(a) <= adj(b); a..=b "includes $li[$b]": b must be an
+//   existing element (-n <= b < n), the slice is a..(b+1), and ..=-1 means "to the
+//   end" (also for the empty list).
 
 //@ spec fn adj(i int, n int) int = i < 0 ? i + n : i
 //@ spec fn k3(s string) int = sindex(s, "..=")
@@ -23,6 +24,8 @@ package vals
 //@ spec fn lowval(s string) int = len(lowpart(s)) == 0 ? 0 : atoi_val(lowpart(s))
 //@ spec fn highraw(s string, n int) int = len(highpart(s)) == 0 ? n : atoi_val(highpart(s))
 //@ spec fn highval(s string, n int) int = len(highpart(s)) == 0 ? n : (inclusive(s) ? (atoi_val(highpart(s)) == -1 ? n : atoi_val(highpart(s)) + 1) : atoi_val(highpart(s)))
+//   the upper bound of a closed slice names an element: not below -n (b == -1 is always allowed)
+//@ spec fn closedok(s string, n int) bool = !inclusive(s) || len(highpart(s)) == 0 || atoi_val(highpart(s)) == -1 || atoi_val(highpart(s)) >= 0 - n
 //@ spec fn partsok(s string) bool = (len(lowpart(s)) == 0 || atoi_ok(lowpart(s))) && (len(highpart(s)) == 0 || atoi_ok(highpart(s)))
 
 //@ func adjustAndCheckIndex
@@ -59,7 +62,7 @@ package vals
 //@   ensures slice == (err == nil && isslice(s))
 //@   ensures !isslice(s) ==> ((err == nil) == atoi_ok(s))
 //@   ensures !isslice(s) && err == nil ==> i == atoi_val(s)
-//@   ensures isslice(s) ==> ((err == nil) == partsok(s))
+//@   ensures isslice(s) ==> ((err == nil) == (partsok(s) && closedok(s, n)))
 //@   ensures isslice(s) && err == nil ==> i == lowval(s)
 //@   ensures isslice(s) && err == nil && (highraw(s, n) < MaxInt || !inclusive(s)) ==> j == highval(s, n)
 //@   ensures isslice(s) && err == nil && highraw(s, n) == MaxInt && inclusive(s) ==> j == MinInt
@@ -81,7 +84,7 @@ package vals
 //@   ensures err == nil && istype(rawIndex, string) && !isslice(rawIndex.(string)) ==> !idx.Slice && idx.Lower == adj(atoi_val(rawIndex.(string)), n)
 //   string holding a slice a..b / a..=b
 //@   ensures err == nil && istype(rawIndex, string) && isslice(rawIndex.(string)) ==> idx.Slice && idx.Lower == adj(lowval(rawIndex.(string)), n) && idx.Upper == adj(highval(rawIndex.(string), n), n)
-//@   ensures istype(rawIndex, string) && isslice(rawIndex.(string)) && partsok(rawIndex.(string)) && highraw(rawIndex.(string), n) < MaxInt ==> (err == nil) == (-n <= lowval(rawIndex.(string)) && lowval(rawIndex.(string)) <= n && -n <= highval(rawIndex.(string), n) && highval(rawIndex.(string), n) <= n && adj(lowval(rawIndex.(string)), n) <= adj(highval(rawIndex.(string), n), n))
+//@   ensures istype(rawIndex, string) && isslice(rawIndex.(string)) && partsok(rawIndex.(string)) && highraw(rawIndex.(string), n) < MaxInt ==> (err == nil) == (closedok(rawIndex.(string), n) && -n <= lowval(rawIndex.(string)) && lowval(rawIndex.(string)) <= n && -n <= highval(rawIndex.(string), n) && highval(rawIndex.(string), n) <= n && adj(lowval(rawIndex.(string)), n) <= adj(highval(rawIndex.(string), n), n))
 //@   ensures istype(rawIndex, string) && isslice(rawIndex.(string)) && !partsok(rawIndex.(string)) ==> err != nil
 
 // ---------------------------------------------------------------------------
